@@ -27,6 +27,10 @@ from sim.core.gateway import make_environ, call_app
 from sim.core.seams import Seams, SimClock
 from sim.core.fsseam import FsSeam
 from sim.core.hoststub import HostStub
+from sim.core.sched import BatonScheduler
+from sim.core import runner
+
+WATCH = (os.path.join(runner.REPO, 'clastic') + os.sep, '<sinter')
 
 ROUTES = ['ok', 'stream', 'ctx', 'static-small', 'static-big', 'static-missing', 'static-oddtime', 'static-oddtime', 'branch', 'missing', 'm405', 'boom',
           'http403', 'meta', 'meta-json', 'gz', 'cache', 'reroute-raise', 'reroute-ep', 'sub-ok', 'empty', 'bytes-big']
@@ -97,6 +101,7 @@ class C13(Check):
     design_ref = 'DESIGN.md 3.7'
     runs = {'quick': 1200, 'thorough': 25000}
     shrink_lists = (('ops',),)
+    hashseeds = {'quick': [1], 'thorough': [1, 2]}
     rule = ('one application exposing every response kind (plain, streamed, rendered context, static files small/big/missing, '
             'slash redirect, 404, 405, 500 default/debug, raised HTTPException, meta pages, gzip- and cache-processed, '
             'RerouteWSGI raised / as endpoint, embedded application) behind generated stacks of wsgi_wrapper middlewares at '
@@ -116,7 +121,7 @@ class C13(Check):
     level_text = ('Seeded search over server behaviours x response kinds x wrapper stacks with a protocol monitor; the '
                   'route-kind x method x consumption x file-wrapper grid is swept once per run for a sampled wrapper stack.')
     level_note = 'Trusted: wsgiref.validate as the reading of PEP 3333; the monitor in sim/core/gateway.py.'
-    required_probes = ('file-released-after-abort', 'file-released-without-iteration', 'head-no-body', 'reroute-same-environ',
+    required_probes = ('first-requests-concurrent', 'file-released-after-abort', 'file-released-without-iteration', 'head-no-body', 'reroute-same-environ',
                        'wrapper-unique-once', 'custom-file-wrapper-used', 'debug-500', 'gzip-applied')
 
     def generate(self, seed, tier):
@@ -141,6 +146,19 @@ class C13(Check):
         sib = pick(2, banned=nonuniq_used)       # a sibling embedded application with its own instances
         cfg = {'debug': c.random() < 0.4, 'types': types, 'outer_wrappers': outer, 'sub_wrappers': sub, 'route_wrappers': route,
                'sib_wrappers': sib}
+        if c.random() < 0.5:
+            # the application's very first requests arrive at the same time
+            sch = S['sched']
+            n = sch.choice([2, 2, 3])
+            gran = sch.choice(['line', 'line', 'ins'])
+            hi = 200 if gran == 'line' else 1200
+            names_t = ['T%d' % i for i in range(n)]
+            order = list(names_t)
+            sch.shuffle(order)
+            cfg['first_batch'] = {'reqs': [{'route': sch.choice(['ok', 'ctx', 'missing', 'sub-ok', 'm405', 'empty', 'http403']),
+                                            'method': sch.choice(['GET', 'GET', 'HEAD', 'POST'])} for _ in range(n)],
+                                  'granularity': gran, 'order': order,
+                                  'preempts': sorted([sch.randint(1, hi), sch.choice(['demote'] + names_t)] for _ in range(sch.randint(1, 6)))}
         ops = []
         grid = [(r, m) for r in ROUTES for m in ('GET', 'HEAD')]
         rng.shuffle(grid)
@@ -228,14 +246,47 @@ class C13(Check):
                 except Exception as e:
                     res.violate(K + 'setup-failed:%s' % type(e).__name__, '%r %s' % (e, canon(cfg)))
                     return res
+                fb = cfg.get('first_batch')
+                if fb:
+                    self.first_batch(app, cfg, fb, res)
                 for step, op in enumerate(plan['ops']):
-                    self.one(app, cfg, op, step, res, seam, target)
                     if res.violations:
                         break
+                    self.one(app, cfg, op, step, res, seam, target)
         finally:
             shutil.rmtree(root, ignore_errors=True)
         res.steps = len(plan['ops'])
         return res
+
+    def first_batch(self, app, cfg, fb, res):
+        K = 'C13/'
+        got = {}
+        tasks = {}
+        for i, rq in enumerate(fb['reqs']):
+            env = make_environ(rq['method'], PATH[rq['route']], body=b'x=1' if rq['method'] == 'POST' else b'')
+            tasks['T%d' % i] = (lambda i=i, env=env: got.__setitem__(i, (env, call_app(app, env, validate=True))))
+        sched = BatonScheduler(fb.get('order', sorted(tasks)), fb.get('preempts', []), fb.get('granularity', 'line'), WATCH)
+        sched.run(tasks)
+        res.fire('preempt', len(sched.switches))
+        res.probe('first-requests-concurrent')
+        res.nontrivial = True
+        res.ev('first-batch', len(fb['reqs']), 'switches', len(sched.switches), [got[i][1].code for i in sorted(got)])
+        if sched.errors:
+            res.violate(K + 'thread-raised:%s' % type(list(sched.errors.values())[0]).__name__, '%r' % (sched.errors,), 'first')
+            return
+        for i, rq in enumerate(fb['reqs']):
+            env, ex = got[i]
+            ctx = 'first batch: %s %s served concurrently with the other first requests %s' % (rq['method'], PATH[rq['route']], fb['reqs'])
+            if ex.escaped is not None:
+                res.violate(K + 'exception-escaped:%s@first-batch' % type(ex.escaped).__name__, ctx + ' -> %r' % (ex.escaped,), 'first')
+                return
+            for key, msg in ex.errors:
+                res.violate(K + 'protocol:%s@first-batch' % key, ctx + ' -> %s %s' % (key, msg), 'first')
+                return
+            bad = self.wrapper_order_problem(cfg, env.get('sim.wrappers', []))
+            if bad:
+                res.violate(K + 'wrapper-order:' + bad[0] + '@first-batch', ctx + ' -> wrappers entered %r: %s' % (env.get('sim.wrappers', []), bad[1]), 'first')
+                return
 
     def one(self, app, cfg, op, step, res, seam, target):
         K = 'C13/'
